@@ -94,8 +94,9 @@ CLAIMS = {
              "stationary points have zero total gradient; lookup identifies exactly equal decompositions; reuse flag = "
              "conjunction) holds initially and is preserved by every oracle / gradient / value / stationary / fixed-point / "
              "add_point / combine operation, hence after every op sequence, under a decidable guard (no zero weight after "
-             "merging, no explicit zero coefficient in a query point); without the guard it is refuted with witnesses (known "
-             "findings F-C07a-c). Tie: exhaustive short and random long op sequences compared exactly with the model.",
+             "merging, i.e. the composite is not the zero function, no explicit zero coefficient in a query point; cancelling "
+             "weights are covered since the fix: commit 5162ea4); without the guard it is refuted with witnesses (findings "
+             "F-C07b,c,d,e). Tie: exhaustive short and random long op sequences compared exactly with the model.",
         ref="DESIGN.md 5.7",
         note="object aliasing is not observable in the dumps (only mutation is the idempotent prune); steps call add_point "
              "on not-yet-recorded points (scoping guard)",
@@ -128,7 +129,8 @@ CLAIMS = {
         text="Coq theorems for every op sequence (edits, solves, failed solves, evaluations): what the k-th solve sends is a "
              "function of the declared model and the fresh objective index only; the amount of data sent does not grow with "
              "the number of solves (class LMIs and partition constraints included, after the two fix: commits); after a "
-             "finite solve every object without an older cache evaluates to the latest solution; sent item k carries dual k. "
+             "finite solve every object without an older cache evaluates to the latest solution; sent item k carries dual k; "
+             "own constraints / LMIs of leaf and composite functions and heuristic solves are part of the model. "
              "Refuted with witnesses: stale caches (F-C13a), values surviving a failed solve (F-C13d). Tie: programs with 2-4 "
              "solves and edits run on the real code with injected solutions, compared with the model; real SCS re-solves.",
         ref="DESIGN.md 5.13",
@@ -196,11 +198,13 @@ CLAIMS = {
         technique="Coq proof over programs regenerated from the source (symbolic execution + real analysis lemmas) + "
                   "correspondence"),
     "C09": dict(
-        text="Coq theorems: running any well-formed recorded method (any length) in any world of real oracles makes every "
-             "recorded sample genuine and never changes free leaves; with C03 (genuine samples satisfy all class constraints) "
-             "and C01's weak duality this bounds every real run by the returned value. Tie: oracle-recording model vs. "
-             "Function.oracle (exact); validation: sources of the shipped examples re-executed on real members of the "
-             "declared classes and compared with PEPit's value.",
+        text="Coq theorems: running any well-formed recorded method - free points, stationary points, oracle calls, proximal, "
+             "linear-optimisation, inexact-gradient and line-search steps, any length - in any world of real oracles makes "
+             "every recorded sample genuine, every recorded step constraint true, and never changes free leaves; composed with "
+             "C03 over the class plans REGENERATED from the sources (22 classes) every generated class constraint holds at the "
+             "run's values; the Gram matrix of a real valuation is a feasible point, so with C01's weak duality every real run "
+             "is bounded by the certified value. Tie: recording model vs. the real oracle / step calls (exact); validation: "
+             "sources of the shipped examples re-executed on adversarially tuned real members and compared with PEPit's value.",
         ref="DESIGN.md 5.9",
         note="conditional on the solver assumption of C01; class definitions of Spec/Classes.v; the example-code = "
              "documented-method link is informal; the numerical re-execution is search/validation, not proof",
